@@ -29,6 +29,9 @@ func (e *affEnv) resolve(v ssa.Value) ssa.Value {
 	}
 	if e.reg != nil {
 		v = stripNum(stripConv(e.reg.Resolve(v)))
+		if e.canon != nil { // a parameter of a helper stands for the argument, which may be one of the equal loads
+			v = e.canon(v)
+		}
 	}
 	// load of a single-store cell
 	if u, ok := v.(*ssa.UnOp); ok && u.Op == token.MUL {
@@ -256,16 +259,17 @@ func (e *affEnv) loopRange(idx ssa.Value) (lo, hi lin, enter []Edge, header *ssa
 	// rangeindex form
 	if b, isB := idx.(*ssa.BinOp); isB && b.Op == token.ADD {
 		if n, isC := constInt(b.Y); isC && n == 1 {
-			if p, isP := b.X.(*ssa.Phi); isP && len(p.Edges) == 2 {
-				initOK, backOK := false, false
+			if p, isP := b.X.(*ssa.Phi); isP && len(p.Edges) >= 2 {
+				// one edge from outside carrying -1; every other edge (the latch, and one per `continue`) carries the incremented index
+				nInit, nBack := 0, 0
 				for _, ed := range p.Edges {
 					if k, isK := constInt(ed); isK && k == -1 {
-						initOK = true
-					}
-					if ed == ssa.Value(b) {
-						backOK = true
+						nInit++
+					} else if ed == ssa.Value(b) {
+						nBack++
 					}
 				}
+				initOK, backOK := nInit == 1, nBack == len(p.Edges)-1
 				if initOK && backOK {
 					for _, ref := range *b.Referrers() {
 						cmp, isCmp := ref.(*ssa.BinOp)
